@@ -477,6 +477,8 @@ func init() {
 			switch {
 			case fam == 5:
 				c09BoundarySweep(c, r)
+			case fam == 6 && c.Idx/8%2 == 1:
+				c09StringSweep(c, r)
 			case fam == 6:
 				c09SkipSweep(c, r)
 			case fam < 5:
@@ -749,6 +751,64 @@ func c09SkipSweep(c *rt.Ctx, r *rand.Rand) {
 	}
 	if c.Idx%64 == 6 {
 		c.Sample(map[string]any{"family": "skipped-member sweep", "catalogue": len(vals), "documents": 12})
+	}
+}
+
+type c09StrDst struct {
+	S string
+	T string
+	L []string
+	M map[string]string
+}
+
+// c09StringSweep: string contents of every class the string scanners treat specially - ill-formed
+// UTF-8 (which the stream decoder replaces in place), multi-byte characters, every escape - decoded
+// into string-typed destinations (member, slice element, map key and value), followed by more
+// members so that a refill comes after them; every single cut and chunk sizes 1..4.
+func c09StringSweep(c *rt.Ctx, r *rand.Rand) {
+	contents := []string{"\xff", "a\xffb", "\xe2\x82", "\xed\xa0\x80", "\xf4\x90\x80\x80", "\xc0\x80", "\xff\xfe\xfd", "é", "\xf0\x9f\x98\x80", "€\xff€", "x\x80", "\x80x",
+		bsU("00e9"), bsU("d83d") + bsU("de00"), bsU("d800"), `\n`, `\"`, `\\`, "plain", "", "\xffé\xff" + bsU("0041") + "\xff"}
+	t := reflect.TypeOf(c09StrDst{})
+	for k := 0; k < 10; k++ {
+		a := contents[(c.Idx/16*10+k)%len(contents)]
+		b := contents[r.Intn(len(contents))]
+		var doc string
+		switch (c.Idx/16 + k) % 5 {
+		case 0:
+			doc = `{"S":"` + a + `","T":"` + b + `"}`
+		case 1:
+			doc = `{"L":["` + a + `","` + b + `","z"],"T":"t"}`
+		case 2:
+			doc = `{"M":{"` + a + `":"` + b + `","k":"v"},"S":"s"}`
+		case 3:
+			doc = `{"S":"` + a + `","zz":["` + b + `"],"T":"` + a + `"}`
+		default:
+			doc = `{"S":"` + strings.Repeat("p", 490+r.Intn(30)) + a + `","T":"` + b + `","L":["` + a + `"]}`
+		}
+		d := []byte(doc)
+		valid := oracle.Recognise(d, 0)
+		var tree *oracle.Node
+		if valid {
+			tree, _ = oracle.Parse(d)
+		}
+		if !c.Cur(k, "shapes=core\ntype: "+t.String()+"\ndoc: "+doc) {
+			continue
+		}
+		sub := k * 1000
+		for cut := 1; cut < len(d); cut++ {
+			if len(d) > 300 && !(cut >= 480 && cut <= 540) && cut%41 != 0 {
+				continue
+			}
+			compareStreamBuffer(c, sub, d, tree, valid, t, &chunkReader{data: d, cuts: []int{cut}, failAt: -1}, "single-cut", cut)
+			sub++
+		}
+		for size := 1; size <= 4; size++ {
+			compareStreamBuffer(c, sub, d, tree, valid, t, &chunkReader{data: d, cuts: fixedCuts(len(d), size), failAt: -1}, fmt.Sprintf("fixed=%d", size), -1)
+			sub++
+		}
+		compareStreamBuffer(c, sub, d, tree, valid, t, &chunkReader{data: d, failAt: -1}, "whole-reads", -1)
+		c.NonTrivial("string-sweep", doc)
+		c.Obs("string_sweep_documents", 1)
 	}
 }
 
